@@ -1,3 +1,1093 @@
 //! Gate store: an `object_store::ObjectStore` wrapper that attributes every storage call to an actor,
 //! blocks it until the schedule releases it, can inject faults, and records one event per call.
-//! (owned by the LanceCommit module builder)
+//! (owned by the LanceCommit module builder; reused by the cleanup / refs drivers)
+//!
+//! Model of use
+//! * One [`Gate`] per scenario: the shared `InMemory` store, the scriptable external manifest
+//!   store, the lease (commit lock), the list of pending (blocked) calls and the recorded events.
+//! * One [`GateStore`] / [`GateExternalStore`] / [`GateLock`] *per actor* (they only carry the actor
+//!   id and an `Arc<Gate>`), so every call is attributable.
+//! * All actors run as tasks on a current-thread tokio runtime.  A gated call registers itself in
+//!   `pending` and waits for a [`Decision`]; the scheduler (the driver's main task) releases one
+//!   pending call at a time and waits until the released actor is blocked again or has finished
+//!   ([`Gate::settle`]), so a schedule (sequence of actor ids) determines the execution.
+//! * Gated: every mutating call, every `list` / `head` below `_versions`, `_refs`, `_transactions`,
+//!   every external-store and lease call.  Reads of other files pass through unrecorded; GETs below
+//!   `_versions` pass through but are recorded (`"g":0`) so the validator can check what was read.
+//! * Faults: `Fail` = the call has no effect and returns an error; `Lost` = the effect is applied
+//!   and the caller sees an error.  A crash is not a decision: the scheduler simply aborts the
+//!   actor's task while it is blocked at the gate.
+//! * Every event carries, besides the call, a snapshot of `_versions` and of the external store
+//!   taken under the gate mutex right after the call took effect.
+//!
+//! The gate never judges anything; the TLA+ trace specification does.
+use std::collections::{BTreeMap, HashMap, VecDeque};
+use std::fmt::{Debug, Display, Formatter};
+use std::ops::Range;
+use std::sync::{Arc, Mutex};
+use std::time::Duration;
+
+use async_trait::async_trait;
+use bytes::Bytes;
+use futures::stream::BoxStream;
+use futures::{FutureExt, StreamExt, TryStreamExt};
+use lance_table::io::commit::external_manifest::ExternalManifestStore;
+use lance_table::io::commit::{CommitError, CommitLease, CommitLock};
+use object_store::memory::InMemory;
+use object_store::path::Path;
+use object_store::{
+    Error as OsError, GetOptions, GetResult, ListResult, MultipartUpload, ObjectMeta, ObjectStore,
+    PutMode, PutMultipartOptions, PutOptions, PutPayload, PutResult, Result as OsResult,
+    UploadPart,
+};
+use serde_json::{json, Value};
+use tokio::sync::{oneshot, Notify};
+
+pub type Actor = usize;
+
+/// What the scheduler tells a blocked call to do.
+#[derive(Clone, Copy, Debug, PartialEq, Eq)]
+pub enum Decision {
+    /// perform the call
+    Ok,
+    /// do not perform it, return an error
+    Fail,
+    /// perform it, then return an error (lost response)
+    Lost,
+}
+
+impl Decision {
+    pub fn parse(s: &str) -> Self {
+        match s {
+            "fail" => Self::Fail,
+            "lost" => Self::Lost,
+            _ => Self::Ok,
+        }
+    }
+}
+
+/// Description of a blocked call (what the scheduler can see before releasing it).
+#[derive(Clone, Debug)]
+pub struct PendingInfo {
+    pub id: u64,
+    pub actor: Actor,
+    pub op: String,
+    pub path: String,
+}
+
+struct Pending {
+    info: PendingInfo,
+    tx: oneshot::Sender<Decision>,
+}
+
+/// Classification of a path relative to the table root.
+#[derive(Clone, Debug, PartialEq, Eq)]
+pub struct PathClass {
+    /// "final" | "staging" | "detached" | "txn" | "data" | "del" | "index" | "vdir" | "other"
+    pub cls: &'static str,
+    /// version number for final/staging, small first-occurrence id for detached, else -1
+    pub v: i64,
+    /// small first-occurrence id of a staging path, else 0
+    pub sid: i64,
+}
+
+#[derive(Default)]
+struct GateState {
+    pending: VecDeque<Pending>,
+    next_id: u64,
+    events: Vec<Value>,
+    seq: u64,
+    finished: HashMap<Actor, bool>,
+    /// actors whose calls are never blocked (setup, final validation reader)
+    passthrough: HashMap<Actor, bool>,
+    lock_holder: Option<Actor>,
+    ext: BTreeMap<u64, String>,
+    content_ids: HashMap<u64, i64>,
+    staging_ids: HashMap<String, i64>,
+    detached_ids: HashMap<String, i64>,
+    record: bool,
+    /// "mutations" of the store behaviour used to demonstrate the binding (see vh_commit --mutate)
+    mutate: String,
+}
+
+pub struct Gate {
+    st: Mutex<GateState>,
+    notify: Notify,
+    pub inner: Arc<InMemory>,
+    pub base: Path,
+    /// the table uses V2 manifest names; a final-manifest path in the *other* naming scheme is
+    /// classified "altfinal" (lance probes the V2 name first when resolving a version)
+    pub naming_v2: std::sync::atomic::AtomicBool,
+}
+
+fn fnv(b: &[u8]) -> u64 {
+    let mut h: u64 = 0xcbf29ce484222325;
+    for x in b {
+        h ^= *x as u64;
+        h = h.wrapping_mul(0x100000001b3);
+    }
+    h
+}
+
+fn injected(path: &str, what: &str) -> OsError {
+    OsError::Generic {
+        store: "gate",
+        source: format!("injected fault ({what}) at {path}").into(),
+    }
+}
+
+impl Gate {
+    pub fn new(base: &str) -> Arc<Self> {
+        Arc::new(Self {
+            st: Mutex::new(GateState {
+                record: true,
+                ..Default::default()
+            }),
+            notify: Notify::new(),
+            inner: Arc::new(InMemory::new()),
+            base: Path::from(base),
+            naming_v2: std::sync::atomic::AtomicBool::new(false),
+        })
+    }
+
+    pub fn set_mutation(&self, m: &str) {
+        self.st.lock().unwrap().mutate = m.to_string();
+    }
+    fn mutation(&self) -> String {
+        self.st.lock().unwrap().mutate.clone()
+    }
+
+    pub fn set_passthrough(&self, actor: Actor, on: bool) {
+        self.st.lock().unwrap().passthrough.insert(actor, on);
+    }
+    pub fn set_record(&self, on: bool) {
+        self.st.lock().unwrap().record = on;
+    }
+    pub fn mark_finished(&self, actor: Actor) {
+        self.st.lock().unwrap().finished.insert(actor, true);
+        self.notify.notify_waiters();
+        self.notify.notify_one();
+    }
+    pub fn is_finished(&self, actor: Actor) -> bool {
+        *self.st.lock().unwrap().finished.get(&actor).unwrap_or(&false)
+    }
+    pub fn lock_holder(&self) -> Option<Actor> {
+        self.st.lock().unwrap().lock_holder
+    }
+    /// Lease expiry (scheduler-driven pseudo step).
+    pub fn expire_lease(&self) -> Option<Actor> {
+        let mut st = self.st.lock().unwrap();
+        let h = st.lock_holder.take();
+        let holder = h.map(|x| x as i64).unwrap_or(-1);
+        drop(st);
+        self.emit_call(0, "expire", &self.class_none(), "ok", -1, 1, json!([]), holder);
+        h
+    }
+
+    /// Drop every blocked call of `actor` (used after its task was aborted = crash).
+    pub fn drop_pending(&self, actor: Actor) {
+        let mut st = self.st.lock().unwrap();
+        st.pending.retain(|p| p.info.actor != actor);
+    }
+
+    pub fn pending_of(&self, actor: Actor) -> Option<PendingInfo> {
+        let st = self.st.lock().unwrap();
+        st.pending
+            .iter()
+            .find(|p| p.info.actor == actor)
+            .map(|p| p.info.clone())
+    }
+    pub fn pending_count(&self, actor: Actor) -> usize {
+        let st = self.st.lock().unwrap();
+        st.pending.iter().filter(|p| p.info.actor == actor).count()
+    }
+    pub fn all_pending(&self) -> Vec<PendingInfo> {
+        let st = self.st.lock().unwrap();
+        st.pending.iter().map(|p| p.info.clone()).collect()
+    }
+
+    /// Wait until `actor` is blocked at the gate or has finished.  Returns the oldest blocked call.
+    pub async fn settle(&self, actor: Actor, timeout: Duration) -> Option<PendingInfo> {
+        let deadline = tokio::time::Instant::now() + timeout;
+        loop {
+            // let every runnable task make progress first
+            for _ in 0..4 {
+                tokio::task::yield_now().await;
+            }
+            if let Some(p) = self.pending_of(actor) {
+                // give concurrently issued calls of the same actor the chance to arrive
+                for _ in 0..4 {
+                    tokio::task::yield_now().await;
+                }
+                return Some(p);
+            }
+            if self.is_finished(actor) {
+                return None;
+            }
+            let now = tokio::time::Instant::now();
+            if now >= deadline {
+                return None;
+            }
+            let wait = std::cmp::min(deadline - now, Duration::from_millis(20));
+            let _ = tokio::time::timeout(wait, self.notify.notified()).await;
+        }
+    }
+
+    /// Release the oldest blocked call of `actor`.  Returns its description (None: nothing blocked).
+    pub fn release(&self, actor: Actor, d: Decision) -> Option<PendingInfo> {
+        let mut st = self.st.lock().unwrap();
+        let idx = st.pending.iter().position(|p| p.info.actor == actor)?;
+        let p = st.pending.remove(idx).unwrap();
+        drop(st);
+        let info = p.info.clone();
+        let _ = p.tx.send(d);
+        Some(info)
+    }
+
+    async fn enter(&self, actor: Actor, op: &str, path: &str) -> Decision {
+        let rx = {
+            let mut st = self.st.lock().unwrap();
+            if *st.passthrough.get(&actor).unwrap_or(&false) {
+                return Decision::Ok;
+            }
+            let (tx, rx) = oneshot::channel();
+            st.next_id += 1;
+            let id = st.next_id;
+            st.pending.push_back(Pending {
+                info: PendingInfo {
+                    id,
+                    actor,
+                    op: op.to_string(),
+                    path: path.to_string(),
+                },
+                tx,
+            });
+            rx
+        };
+        self.notify.notify_waiters();
+        self.notify.notify_one();
+        match rx.await {
+            Ok(d) => d,
+            // the gate was torn down: never perform anything any more
+            Err(_) => futures::future::pending().await,
+        }
+    }
+
+    // ------------------------------------------------------------------ classification
+    fn class_none(&self) -> PathClass {
+        PathClass {
+            cls: "other",
+            v: -1,
+            sid: 0,
+        }
+    }
+
+    pub fn classify(&self, p: &str) -> PathClass {
+        self.classify_hint(p, -1)
+    }
+
+    /// `hint` > 0: content id about to be PUT at `p`; a staging / detached name seen for the first
+    /// time gets this id (each such name is written exactly once, so name and content identify each
+    /// other).  Names first seen otherwise get ids from 1000 upwards.
+    pub fn classify_hint(&self, p: &str, hint: i64) -> PathClass {
+        let base = self.base.as_ref();
+        let rel = p
+            .trim_start_matches('/')
+            .strip_prefix(base)
+            .map(|r| r.trim_start_matches('/'))
+            .unwrap_or(p);
+        let none = self.class_none();
+        if rel == "_versions" {
+            return PathClass { cls: "vdir", ..none };
+        }
+        if let Some(name) = rel.strip_prefix("_versions/") {
+            if let Some(rest) = name.strip_prefix('d') {
+                if let Some(num) = rest.strip_suffix(".manifest") {
+                    if num.parse::<u64>().is_ok() {
+                        let mut st = self.st.lock().unwrap();
+                        let n = if hint > 0 { hint } else { 1000 + st.detached_ids.len() as i64 };
+                        let id = *st.detached_ids.entry(name.to_string()).or_insert(n);
+                        return PathClass {
+                            cls: "detached",
+                            v: id,
+                            sid: 0,
+                        };
+                    }
+                }
+            }
+            let (stem, tail) = match name.split_once('.') {
+                Some(x) => x,
+                None => return none,
+            };
+            let is_v2_name = stem.len() == 20;
+            let ver = match stem.parse::<u64>() {
+                Ok(n) if is_v2_name => u64::MAX - n,
+                Ok(n) => n,
+                Err(_) => return none,
+            };
+            let table_v2 = self.naming_v2.load(std::sync::atomic::Ordering::Relaxed);
+            if ver > i32::MAX as u64 {
+                return none;
+            }
+            if tail == "manifest" {
+                return PathClass {
+                    cls: if is_v2_name == table_v2 { "final" } else { "altfinal" },
+                    v: ver as i64,
+                    sid: 0,
+                };
+            }
+            if tail.starts_with("manifest-") {
+                let mut st = self.st.lock().unwrap();
+                let n = if hint > 0 { hint } else { 1000 + st.staging_ids.len() as i64 };
+                let id = *st.staging_ids.entry(name.to_string()).or_insert(n);
+                return PathClass {
+                    cls: "staging",
+                    v: ver as i64,
+                    sid: id,
+                };
+            }
+            return none;
+        }
+        let cls = if rel.starts_with("_transactions/") || rel == "_transactions" {
+            "txn"
+        } else if rel.starts_with("data/") {
+            "data"
+        } else if rel.starts_with("_deletions/") {
+            "del"
+        } else if rel.starts_with("_indices/") {
+            "index"
+        } else if rel.starts_with("_refs") {
+            "refs"
+        } else {
+            "other"
+        };
+        PathClass { cls, ..none }
+    }
+
+    fn is_protocol_path(&self, p: &str) -> bool {
+        matches!(
+            self.classify(p).cls,
+            "final" | "altfinal" | "staging" | "detached" | "vdir" | "txn" | "refs"
+        )
+    }
+
+    fn content_id(&self, bytes: &[u8]) -> i64 {
+        let h = fnv(bytes);
+        let mut st = self.st.lock().unwrap();
+        let n = st.content_ids.len() as i64 + 1;
+        *st.content_ids.entry(h).or_insert(n)
+    }
+
+    fn content_of(&self, p: &Path) -> i64 {
+        match self.inner.get(p).now_or_never() {
+            Some(Ok(r)) => match r.bytes().now_or_never() {
+                Some(Ok(b)) => self.content_id(&b),
+                _ => -1,
+            },
+            _ => -1,
+        }
+    }
+
+    /// `[[cls, v, sid, content], ...]` for every object below `_versions`, sorted.
+    pub fn snapshot_versions(&self) -> Value {
+        let prefix = self.base.child("_versions");
+        let metas: Vec<ObjectMeta> = self
+            .inner
+            .list(Some(&prefix))
+            .try_collect::<Vec<_>>()
+            .now_or_never()
+            .and_then(|r| r.ok())
+            .unwrap_or_default();
+        let mut rows: Vec<(String, i64, i64, i64)> = metas
+            .iter()
+            .map(|m| {
+                let c = self.classify(m.location.as_ref());
+                (c.cls.to_string(), c.v, c.sid, self.content_of(&m.location))
+            })
+            .collect();
+        rows.sort();
+        json!(rows
+            .into_iter()
+            .map(|(a, b, c, d)| json!([a, b, c, d]))
+            .collect::<Vec<_>>())
+    }
+
+    /// `[[version, cls, sid], ...]` of the external manifest store.
+    pub fn snapshot_ext(&self) -> Value {
+        let ext: Vec<(u64, String)> = {
+            let st = self.st.lock().unwrap();
+            st.ext.iter().map(|(k, v)| (*k, v.clone())).collect()
+        };
+        json!(ext
+            .into_iter()
+            .map(|(v, p)| {
+                let c = self.classify(&p);
+                json!([v as i64, c.cls, c.sid])
+            })
+            .collect::<Vec<_>>())
+    }
+
+    #[allow(clippy::too_many_arguments)]
+    fn emit_call(
+        &self,
+        actor: Actor,
+        op: &str,
+        c: &PathClass,
+        out: &str,
+        content: i64,
+        gated: i64,
+        ls: Value,
+        aux: i64,
+    ) {
+        if !self.st.lock().unwrap().record {
+            return;
+        }
+        let vs = self.snapshot_versions();
+        let ext = self.snapshot_ext();
+        let holder = self.lock_holder().map(|x| x as i64).unwrap_or(-1);
+        let mut st = self.st.lock().unwrap();
+        st.seq += 1;
+        let seq = st.seq;
+        st.events.push(json!({
+            "ev": "call", "seq": seq, "a": actor, "op": op, "cls": c.cls, "v": c.v, "sid": c.sid,
+            "c": content, "out": out, "g": gated, "ls": ls, "aux": aux, "vs": vs, "ext": ext,
+            "lk": holder,
+        }));
+    }
+
+    /// Record a non-storage event (API return, crash, scheduler note) in sequence.
+    pub fn emit(&self, mut v: Value) {
+        let mut st = self.st.lock().unwrap();
+        if !st.record {
+            return;
+        }
+        st.seq += 1;
+        v["seq"] = json!(st.seq);
+        st.events.push(v);
+    }
+
+    pub fn take_events(&self) -> Vec<Value> {
+        std::mem::take(&mut self.st.lock().unwrap().events)
+    }
+
+    pub fn ext_map(&self) -> BTreeMap<u64, String> {
+        self.st.lock().unwrap().ext.clone()
+    }
+    pub fn ext_set(&self, version: u64, path: Option<String>) {
+        let mut st = self.st.lock().unwrap();
+        match path {
+            Some(p) => {
+                st.ext.insert(version, p);
+            }
+            None => {
+                st.ext.remove(&version);
+            }
+        }
+    }
+}
+
+// =====================================================================================================
+// object store
+
+pub struct GateStore {
+    pub gate: Arc<Gate>,
+    pub actor: Actor,
+}
+
+impl GateStore {
+    pub fn new(gate: Arc<Gate>, actor: Actor) -> Arc<Self> {
+        Arc::new(Self { gate, actor })
+    }
+    fn list_entries(&self, metas: &[ObjectMeta]) -> Value {
+        json!(metas
+            .iter()
+            .map(|m| {
+                let c = self.gate.classify(m.location.as_ref());
+                json!([c.cls, c.v, c.sid])
+            })
+            .collect::<Vec<_>>())
+    }
+}
+
+impl Debug for GateStore {
+    fn fmt(&self, f: &mut Formatter<'_>) -> std::fmt::Result {
+        write!(f, "GateStore(actor={})", self.actor)
+    }
+}
+impl Display for GateStore {
+    fn fmt(&self, f: &mut Formatter<'_>) -> std::fmt::Result {
+        write!(f, "GateStore(actor={})", self.actor)
+    }
+}
+
+#[derive(Debug)]
+struct GateUpload {
+    store: Arc<GateStoreRef>,
+    location: Path,
+    parts: Vec<Bytes>,
+}
+
+#[derive(Debug)]
+struct GateStoreRef {
+    gate_store: Arc<GateStore>,
+}
+
+#[async_trait]
+impl MultipartUpload for GateUpload {
+    fn put_part(&mut self, data: PutPayload) -> UploadPart {
+        for b in data.iter() {
+            self.parts.push(b.clone());
+        }
+        futures::future::ready(Ok(())).boxed()
+    }
+    async fn complete(&mut self) -> OsResult<PutResult> {
+        let mut all = Vec::new();
+        for p in self.parts.drain(..) {
+            all.extend_from_slice(&p);
+        }
+        self.store
+            .gate_store
+            .put_opts(&self.location, PutPayload::from(all), PutOptions::default())
+            .await
+    }
+    async fn abort(&mut self) -> OsResult<()> {
+        self.parts.clear();
+        Ok(())
+    }
+}
+
+#[async_trait]
+impl ObjectStore for GateStore {
+    async fn put_opts(
+        &self,
+        location: &Path,
+        payload: PutPayload,
+        opts: PutOptions,
+    ) -> OsResult<PutResult> {
+        let p = location.as_ref();
+        let create = matches!(opts.mode, PutMode::Create);
+        let op = if create { "put_if_absent" } else { "put" };
+        let under_versions = p.contains("/_versions/");
+        let content = if under_versions {
+            let bytes: Vec<u8> = payload.iter().flat_map(|b| b.iter().copied()).collect();
+            self.gate.content_id(&bytes)
+        } else {
+            -1
+        };
+        let c = self.gate.classify_hint(p, content);
+        let d = self.gate.enter(self.actor, op, p).await;
+        if d == Decision::Fail {
+            self.gate
+                .emit_call(self.actor, op, &c, "fail", content, 1, json!([]), -1);
+            return Err(injected(p, "fail"));
+        }
+        let mut opts = opts;
+        if create && self.gate.mutation() == "store_create_overwrites" {
+            opts.mode = PutMode::Overwrite;
+        }
+        let res = self.gate.inner.put_opts(location, payload, opts).await;
+        let out = match &res {
+            Ok(_) if d == Decision::Lost => "lost",
+            Ok(_) => "ok",
+            Err(OsError::AlreadyExists { .. }) | Err(OsError::Precondition { .. }) => "exists",
+            Err(_) => "err",
+        };
+        self.gate
+            .emit_call(self.actor, op, &c, out, content, 1, json!([]), -1);
+        if d == Decision::Lost && res.is_ok() {
+            return Err(injected(p, "lost response"));
+        }
+        res
+    }
+
+    async fn put_multipart_opts(
+        &self,
+        location: &Path,
+        _opts: PutMultipartOptions,
+    ) -> OsResult<Box<dyn MultipartUpload>> {
+        let me = Arc::new(GateStore {
+            gate: self.gate.clone(),
+            actor: self.actor,
+        });
+        Ok(Box::new(GateUpload {
+            store: Arc::new(GateStoreRef { gate_store: me }),
+            location: location.clone(),
+            parts: vec![],
+        }))
+    }
+
+    async fn get_opts(&self, location: &Path, options: GetOptions) -> OsResult<GetResult> {
+        let p = location.as_ref();
+        if options.head {
+            // `head` is implemented below; a head-only get is treated the same way
+            let meta = self.head(location).await?;
+            let mut r = self.gate.inner.get_opts(location, options).await?;
+            r.meta = meta;
+            return Ok(r);
+        }
+        let c = self.gate.classify(p);
+        let res = self.gate.inner.get_opts(location, options).await;
+        if matches!(c.cls, "final" | "staging" | "detached") {
+            let (out, content) = match &res {
+                Ok(_) => ("ok", self.gate.content_of(location)),
+                Err(OsError::NotFound { .. }) => ("notfound", -1),
+                Err(_) => ("err", -1),
+            };
+            self.gate
+                .emit_call(self.actor, "get", &c, out, content, 0, json!([]), -1);
+        }
+        res
+    }
+
+    async fn get_range(&self, location: &Path, range: Range<u64>) -> OsResult<Bytes> {
+        let options = GetOptions {
+            range: Some(range.into()),
+            ..Default::default()
+        };
+        self.get_opts(location, options).await?.bytes().await
+    }
+
+    async fn head(&self, location: &Path) -> OsResult<ObjectMeta> {
+        let p = location.as_ref();
+        if !self.gate.is_protocol_path(p) {
+            return self.gate.inner.head(location).await;
+        }
+        let c = self.gate.classify(p);
+        let d = self.gate.enter(self.actor, "head", p).await;
+        if d != Decision::Ok {
+            self.gate
+                .emit_call(self.actor, "head", &c, "fail", -1, 1, json!([]), -1);
+            return Err(injected(p, "fail"));
+        }
+        let res = self.gate.inner.head(location).await;
+        let (out, content) = match &res {
+            Ok(_) => ("ok", self.gate.content_of(location)),
+            Err(OsError::NotFound { .. }) => ("notfound", -1),
+            Err(_) => ("err", -1),
+        };
+        self.gate
+            .emit_call(self.actor, "head", &c, out, content, 1, json!([]), -1);
+        res
+    }
+
+    async fn delete(&self, location: &Path) -> OsResult<()> {
+        let p = location.as_ref();
+        let c = self.gate.classify(p);
+        let d = self.gate.enter(self.actor, "delete", p).await;
+        if d == Decision::Fail {
+            self.gate
+                .emit_call(self.actor, "delete", &c, "fail", -1, 1, json!([]), -1);
+            return Err(injected(p, "fail"));
+        }
+        // InMemory::delete succeeds on a missing object; report what really happened
+        let existed = self.gate.inner.head(location).await.is_ok();
+        let res = self.gate.inner.delete(location).await;
+        let out = match (&res, existed, d) {
+            (Ok(_), true, Decision::Lost) => "lost",
+            (Ok(_), true, _) => "ok",
+            (Ok(_), false, _) => "notfound",
+            (Err(OsError::NotFound { .. }), _, _) => "notfound",
+            (Err(_), _, _) => "err",
+        };
+        self.gate
+            .emit_call(self.actor, "delete", &c, out, -1, 1, json!([]), -1);
+        if d == Decision::Lost && res.is_ok() {
+            return Err(injected(p, "lost response"));
+        }
+        res
+    }
+
+    fn list(&self, prefix: Option<&Path>) -> BoxStream<'static, OsResult<ObjectMeta>> {
+        let gate = self.gate.clone();
+        let actor = self.actor;
+        let prefix = prefix.cloned();
+        let me = GateStore {
+            gate: gate.clone(),
+            actor,
+        };
+        futures::stream::once(async move {
+            let p = prefix.as_ref().map(|x| x.to_string()).unwrap_or_default();
+            let gated = gate.is_protocol_path(&p);
+            let c = gate.classify(&p);
+            if gated {
+                let d = gate.enter(actor, "list", &p).await;
+                if d != Decision::Ok {
+                    gate.emit_call(actor, "list", &c, "fail", -1, 1, json!([]), -1);
+                    return futures::stream::iter(vec![Err(injected(&p, "fail"))]).boxed();
+                }
+            }
+            let metas: Vec<ObjectMeta> = match gate.inner.list(prefix.as_ref()).try_collect().await
+            {
+                Ok(m) => m,
+                Err(e) => return futures::stream::iter(vec![Err(e)]).boxed(),
+            };
+            if gated {
+                let ls = me.list_entries(&metas);
+                gate.emit_call(actor, "list", &c, "ok", -1, 1, ls, -1);
+            }
+            futures::stream::iter(metas.into_iter().map(Ok)).boxed()
+        })
+        .flatten()
+        .boxed()
+    }
+
+    async fn list_with_delimiter(&self, prefix: Option<&Path>) -> OsResult<ListResult> {
+        let p = prefix.map(|x| x.to_string()).unwrap_or_default();
+        let gated = self.gate.is_protocol_path(&p);
+        let c = self.gate.classify(&p);
+        if gated {
+            let d = self.gate.enter(self.actor, "list", &p).await;
+            if d != Decision::Ok {
+                self.gate
+                    .emit_call(self.actor, "list", &c, "fail", -1, 1, json!([]), -1);
+                return Err(injected(&p, "fail"));
+            }
+        }
+        let res = self.gate.inner.list_with_delimiter(prefix).await;
+        if gated {
+            let ls = match &res {
+                Ok(r) => self.list_entries(&r.objects),
+                Err(_) => json!([]),
+            };
+            self.gate
+                .emit_call(self.actor, "list", &c, "ok", -1, 1, ls, -1);
+        }
+        res
+    }
+
+    async fn copy(&self, from: &Path, to: &Path) -> OsResult<()> {
+        self.two_path(from, to, "copy").await
+    }
+    async fn rename(&self, from: &Path, to: &Path) -> OsResult<()> {
+        self.two_path(from, to, "rename").await
+    }
+    async fn copy_if_not_exists(&self, from: &Path, to: &Path) -> OsResult<()> {
+        self.two_path(from, to, "copy_if_absent").await
+    }
+    async fn rename_if_not_exists(&self, from: &Path, to: &Path) -> OsResult<()> {
+        self.two_path(from, to, "rename_if_absent").await
+    }
+}
+
+impl GateStore {
+    /// copy / rename family: one gated, atomic call.  The event is classified by the destination;
+    /// `aux` carries the staging id of the source.
+    async fn two_path(&self, from: &Path, to: &Path, op: &str) -> OsResult<()> {
+        let p = to.as_ref();
+        let c = self.gate.classify(p);
+        let cf = self.gate.classify(from.as_ref());
+        let d = self.gate.enter(self.actor, op, p).await;
+        if d == Decision::Fail {
+            self.gate
+                .emit_call(self.actor, op, &c, "fail", -1, 1, json!([]), cf.sid);
+            return Err(injected(p, "fail"));
+        }
+        let mutated = self.gate.mutation() == "store_rename_overwrites";
+        let res = match op {
+            "copy" => self.gate.inner.copy(from, to).await,
+            "rename" => self.gate.inner.rename(from, to).await,
+            "copy_if_absent" => self.gate.inner.copy_if_not_exists(from, to).await,
+            _ if mutated => self.gate.inner.rename(from, to).await,
+            _ => {
+                // atomic rename-if-absent (InMemory's default is copy_if_not_exists + delete)
+                match self.gate.inner.copy_if_not_exists(from, to).await {
+                    Ok(_) => self.gate.inner.delete(from).await,
+                    Err(e) => Err(e),
+                }
+            }
+        };
+        let out = match &res {
+            Ok(_) if d == Decision::Lost => "lost",
+            Ok(_) => "ok",
+            Err(OsError::AlreadyExists { .. }) => "exists",
+            Err(OsError::NotFound { .. }) => "notfound",
+            Err(_) => "err",
+        };
+        let content = if res.is_ok() {
+            self.gate.content_of(to)
+        } else {
+            -1
+        };
+        self.gate
+            .emit_call(self.actor, op, &c, out, content, 1, json!([]), cf.sid);
+        if d == Decision::Lost && res.is_ok() {
+            return Err(injected(p, "lost response"));
+        }
+        res
+    }
+}
+
+// =====================================================================================================
+// external manifest store (scriptable: shares the gate, one instance per actor)
+
+pub struct GateExternalStore {
+    pub gate: Arc<Gate>,
+    pub actor: Actor,
+}
+
+impl Debug for GateExternalStore {
+    fn fmt(&self, f: &mut Formatter<'_>) -> std::fmt::Result {
+        write!(f, "GateExternalStore(actor={})", self.actor)
+    }
+}
+
+fn lance_io_err(msg: String) -> lance_core::Error {
+    lance_core::Error::io(msg, snafu::location!())
+}
+
+#[async_trait]
+impl ExternalManifestStore for GateExternalStore {
+    async fn get(&self, base_uri: &str, version: u64) -> lance_core::Result<String> {
+        let none = self.gate.class_none();
+        let d = self.gate.enter(self.actor, "ext_get", base_uri).await;
+        if d != Decision::Ok {
+            let c = PathClass {
+                v: version as i64,
+                ..none
+            };
+            self.gate
+                .emit_call(self.actor, "ext_get", &c, "fail", -1, 1, json!([]), -1);
+            return Err(lance_io_err("injected fault (ext_get)".into()));
+        }
+        let got = self.gate.ext_map().get(&version).cloned();
+        match got {
+            Some(p) => {
+                let pc = self.gate.classify(&p);
+                let c = PathClass {
+                    cls: pc.cls,
+                    v: version as i64,
+                    sid: pc.sid,
+                };
+                self.gate
+                    .emit_call(self.actor, "ext_get", &c, "ok", -1, 1, json!([]), -1);
+                Ok(p)
+            }
+            None => {
+                let c = PathClass {
+                    v: version as i64,
+                    ..none
+                };
+                self.gate
+                    .emit_call(self.actor, "ext_get", &c, "notfound", -1, 1, json!([]), -1);
+                Err(lance_core::Error::NotFound {
+                    uri: format!("{base_uri}@{version}"),
+                    location: snafu::location!(),
+                })
+            }
+        }
+    }
+
+    async fn get_latest_version(&self, base_uri: &str) -> lance_core::Result<Option<(u64, String)>> {
+        let none = self.gate.class_none();
+        let d = self.gate.enter(self.actor, "ext_latest", base_uri).await;
+        if d != Decision::Ok {
+            self.gate
+                .emit_call(self.actor, "ext_latest", &none, "fail", -1, 1, json!([]), -1);
+            return Err(lance_io_err("injected fault (ext_latest)".into()));
+        }
+        let got = self
+            .gate
+            .ext_map()
+            .iter()
+            .next_back()
+            .map(|(k, v)| (*k, v.clone()));
+        match &got {
+            Some((v, p)) => {
+                let pc = self.gate.classify(p);
+                let c = PathClass {
+                    cls: pc.cls,
+                    v: *v as i64,
+                    sid: pc.sid,
+                };
+                self.gate
+                    .emit_call(self.actor, "ext_latest", &c, "ok", -1, 1, json!([]), -1);
+            }
+            None => {
+                self.gate.emit_call(
+                    self.actor,
+                    "ext_latest",
+                    &none,
+                    "notfound",
+                    -1,
+                    1,
+                    json!([]),
+                    -1,
+                );
+            }
+        }
+        Ok(got)
+    }
+
+    async fn put_if_not_exists(
+        &self,
+        base_uri: &str,
+        version: u64,
+        path: &str,
+        _size: u64,
+        _e_tag: Option<String>,
+    ) -> lance_core::Result<()> {
+        let _ = base_uri;
+        self.ext_put(version, path, false).await
+    }
+
+    async fn put_if_exists(
+        &self,
+        base_uri: &str,
+        version: u64,
+        path: &str,
+        _size: u64,
+        _e_tag: Option<String>,
+    ) -> lance_core::Result<()> {
+        let _ = base_uri;
+        self.ext_put(version, path, true).await
+    }
+}
+
+impl GateExternalStore {
+    async fn ext_put(&self, version: u64, path: &str, must_exist: bool) -> lance_core::Result<()> {
+        let op = if must_exist {
+            "ext_put_if_exists"
+        } else {
+            "ext_put_if_absent"
+        };
+        let pc = self.gate.classify(path);
+        let c = PathClass {
+            cls: pc.cls,
+            v: version as i64,
+            sid: pc.sid,
+        };
+        let d = self.gate.enter(self.actor, op, path).await;
+        if d == Decision::Fail {
+            self.gate
+                .emit_call(self.actor, op, &c, "fail", -1, 1, json!([]), -1);
+            return Err(lance_io_err(format!("injected fault ({op})")));
+        }
+        let exists = self.gate.ext_map().contains_key(&version);
+        let mutated = self.gate.mutation() == "ext_put_overwrites";
+        if exists != must_exist && !(mutated && !must_exist) {
+            let out = if must_exist { "notfound" } else { "exists" };
+            self.gate
+                .emit_call(self.actor, op, &c, out, -1, 1, json!([]), -1);
+            return Err(lance_io_err(format!(
+                "external store: version {version} {}",
+                if must_exist {
+                    "does not exist"
+                } else {
+                    "already exists"
+                }
+            )));
+        }
+        self.gate.ext_set(version, Some(path.to_string()));
+        let out = if d == Decision::Lost { "lost" } else { "ok" };
+        self.gate
+            .emit_call(self.actor, op, &c, out, -1, 1, json!([]), -1);
+        if d == Decision::Lost {
+            return Err(lance_io_err(format!("injected fault (lost response, {op})")));
+        }
+        Ok(())
+    }
+}
+
+// =====================================================================================================
+// commit lock (lease): a mutex kept in the gate; `lock` is only released by the scheduler when the
+// model says the lease is free (otherwise the recorded outcome is "busy" and the call fails).
+
+pub struct GateLock {
+    pub gate: Arc<Gate>,
+    pub actor: Actor,
+}
+impl Debug for GateLock {
+    fn fmt(&self, f: &mut Formatter<'_>) -> std::fmt::Result {
+        write!(f, "GateLock(actor={})", self.actor)
+    }
+}
+
+pub struct GateLease {
+    gate: Arc<Gate>,
+    actor: Actor,
+    version: u64,
+}
+
+#[async_trait]
+impl CommitLock for GateLock {
+    type Lease = GateLease;
+    async fn lock(&self, version: u64) -> std::result::Result<Self::Lease, CommitError> {
+        let c = PathClass {
+            cls: "lease",
+            v: version as i64,
+            sid: 0,
+        };
+        let d = self.gate.enter(self.actor, "lock", "lease").await;
+        if d != Decision::Ok {
+            self.gate
+                .emit_call(self.actor, "lock", &c, "fail", -1, 1, json!([]), -1);
+            return Err(CommitError::OtherError(lance_io_err(
+                "injected fault (lock)".into(),
+            )));
+        }
+        let busy = {
+            let mut st = self.gate.st.lock().unwrap();
+            if st.lock_holder.is_some() {
+                true
+            } else {
+                st.lock_holder = Some(self.actor);
+                false
+            }
+        };
+        if busy {
+            self.gate
+                .emit_call(self.actor, "lock", &c, "busy", -1, 1, json!([]), -1);
+            return Err(CommitError::OtherError(lance_io_err(
+                "lease is held by another actor".into(),
+            )));
+        }
+        self.gate
+            .emit_call(self.actor, "lock", &c, "ok", -1, 1, json!([]), -1);
+        Ok(GateLease {
+            gate: self.gate.clone(),
+            actor: self.actor,
+            version,
+        })
+    }
+}
+
+#[async_trait]
+impl CommitLease for GateLease {
+    async fn release(&self, success: bool) -> std::result::Result<(), CommitError> {
+        let c = PathClass {
+            cls: "lease",
+            v: self.version as i64,
+            sid: 0,
+        };
+        let d = self.gate.enter(self.actor, "unlock", "lease").await;
+        if d == Decision::Fail {
+            self.gate
+                .emit_call(self.actor, "unlock", &c, "fail", -1, 1, json!([]), success as i64);
+            return Err(CommitError::OtherError(lance_io_err(
+                "injected fault (unlock)".into(),
+            )));
+        }
+        let held = {
+            let mut st = self.gate.st.lock().unwrap();
+            if st.lock_holder == Some(self.actor) {
+                st.lock_holder = None;
+                true
+            } else {
+                false
+            }
+        };
+        let out = match (held, d) {
+            (true, Decision::Lost) => "lost",
+            (true, _) => "ok",
+            (false, _) => "notheld",
+        };
+        self.gate
+            .emit_call(self.actor, "unlock", &c, out, -1, 1, json!([]), success as i64);
+        if d == Decision::Lost {
+            return Err(CommitError::OtherError(lance_io_err(
+                "injected fault (lost response, unlock)".into(),
+            )));
+        }
+        Ok(())
+    }
+}
